@@ -70,7 +70,7 @@ func kindsFor(op string) []string {
 	case "remove":
 		return []string{"noop", "wrongerr", "weakerr", "wrongpath", "overlap"}
 	case "rename":
-		return []string{"noop", "leavebehind", "wrongerr", "weakerr", "wrongpath"}
+		return []string{"noop", "leavebehind", "wrongerr", "weakerr", "wrongpath", "wrongnewpath"}
 	case "stat":
 		return []string{"wrongsize", "wrongperm", "wrongerr", "wrongname"}
 	case "f.stat":
@@ -524,6 +524,11 @@ func (d *devFS) Rename(oldname, newname string) error {
 			err = weakerErr(err)
 		case "wrongpath":
 			err = wrongPath(err)
+		case "wrongnewpath":
+			// only the SECOND path of the two-path error is off (as a layer that strips its prefix from one of them would leave it)
+			if e, ok := err.(*hackpadfs.LinkError); ok {
+				err = &hackpadfs.LinkError{Op: e.Op, Old: e.Old, New: "inner/" + e.New, Err: e.Err}
+			}
 		}
 	}
 	record(d.scenario, fmt.Sprintf("Rename(%q,%q)=%s", oldname, newname, errStr(err)))
